@@ -18,7 +18,7 @@ from .. import codec, tlc
 LEVEL = "translation_validation"
 FNS = ["lines_by_polygon", "polygons_by_polyhedron"]
 CLAUSES = ["LineClipInside", "LineClipUnion", "LineClipTags", "PolyClipInside", "PolyClipArea",
-           "PolyClipInsideEdgeInPlane", "PolyClipAreaEdgeInPlane"]
+           "PolyClipInsideEdgeInPlane", "PolyClipAreaEdgeInPlane", "PolyClipInsideVertexTouch", "PolyClipAreaVertexTouch"]
 MAXDEN = 1000
 MAXM = 500      # polygons_by_polyhedron: common denominator of all piece vertices of a case
 MAXM_LINE = 200 # lines_by_polygon: denominator of one end point (true values: <= 128)
@@ -55,6 +55,10 @@ MATCHERS = {
     # Pieces outside (clause PolyClipInsideEdgeInPlane), surplus area, exceptions and all non-degenerate placements are NOT matched.
     "polyclip_edge_in_plane_loses_area": lambda r: r["clause"] == "PolyClipAreaEdgeInPlane" and r["fn"] == "polygons_by_polyhedron"
     and r["ok"] is True and r["out"]["x"] is True and _loses_area(r),
+    # the polygon lies in one closed cell and touches its boundary with exactly one vertex (class = clause, decided by TLC):
+    # the in-polyhedron safeguard sees mixed vertices and hits `assert False`.  Wrong pieces or any other error are NOT matched.
+    "polyclip_single_vertex_touch_asserts": lambda r: r["clause"] in ("PolyClipInsideVertexTouch", "PolyClipAreaVertexTouch")
+    and r["fn"] == "polygons_by_polyhedron" and r["ok"] is False and r.get("err", "").startswith("AssertionError"),
 }
 
 
